@@ -530,7 +530,7 @@ type reports struct {
 	rep      *vh.Reporter
 	seen     map[string]int
 	variants map[string][]string
-	kinds    map[string]int
+	observed map[string]int // behaviour outside the property's statement, reported in the evidence only
 }
 
 func (rs *reports) disagree(key, caseKey, desc string, replay map[string]any) {
@@ -541,12 +541,11 @@ func (rs *reports) disagree(key, caseKey, desc string, replay map[string]any) {
 		}
 		return
 	}
-	// replay objects (they become files) for the first two keys of every kind
-	// of disagreement and for every 20th key, not for all of them
-	kind := key[strings.LastIndex(key, ":")+1:]
-	rs.kinds[kind]++
+	// replay objects become files when the disagreement is not a listed
+	// finding: attach them to the first 60 keys of a process and to every 10th
+	// after that
 	var rp any
-	if rs.kinds[kind] <= 2 || len(rs.seen)%20 == 0 {
+	if len(rs.seen) <= 60 || len(rs.seen)%10 == 0 {
 		rp = replay
 	}
 	rs.rep.Disagree(key, desc+" [case "+caseKey+"]", rp)
@@ -588,13 +587,12 @@ func compare(rs *reports, era *eraDef, want func(cl string) (bool, bool), keyOf 
 		key := keyOf(cl)
 		var got []string
 		if f, ok := o.fn[cl]; ok {
-			switch {
-			case strings.HasPrefix(f, "other:"):
-				rs.disagree(key+":other="+cl, caseKey, fmt.Sprintf("%s rule function for %s returned an unrelated error: %s", era.name, cl, f), replay)
-				continue
-			case f != "" && f != cl:
-				rs.disagree(key+":other="+cl, caseKey, fmt.Sprintf("%s rule function for %s returned error class %s", era.name, cl, f), replay)
-				continue
+			if f != "" && f != cl {
+				// the rule function failed for a reason that is not its own
+				// condition: a rejection the property does not talk about. It is
+				// recorded; for the verdict the function did not raise cl.
+				rs.observed["rule function of "+cl+" failed with something else: "+strings.SplitN(f, ":", 2)[0]]++
+				f = ""
 			}
 			if (f == cl) != w {
 				got = append(got, "func")
@@ -639,7 +637,7 @@ func main() {
 		rep.Dead("unknown era %q", os.Args[1])
 	}
 	rng := rand.New(rand.NewSource(vh.Seed()*7919 + int64(len(era.name))))
-	rs := &reports{rep: rep, seen: map[string]int{}, variants: map[string][]string{}, kinds: map[string]int{}}
+	rs := &reports{rep: rep, seen: map[string]int{}, variants: map[string][]string{}, observed: map[string]int{}}
 	freeSeen := map[string]int{}
 	mode := os.Args[2]
 	switch mode {
@@ -650,18 +648,22 @@ func main() {
 	default:
 		rep.Dead("unknown slice %q", mode)
 	}
-	more := map[string]any{}
-	for k, n := range rs.seen {
+	collapsed, extraCases := 0, 0
+	for _, n := range rs.seen {
 		if n > 1 {
-			more[k] = map[string]any{"cases": n, "also": rs.variants[k]}
+			collapsed++
+			extraCases += n - 1
 		}
 	}
 	tag := era.name + "/" + mode
 	if len(freeSeen) > 0 {
 		rep.Extra["free_cases_observed "+tag] = freeSeen
 	}
-	if len(more) > 0 && len(more) <= 40 {
-		rep.Extra["disagreement_variants "+tag] = more
+	if len(rs.observed) > 0 {
+		rep.Extra["observed_outside_the_property "+tag] = rs.observed
+	}
+	if collapsed > 0 {
+		rep.Extra["disagreement_keys_with_further_cases "+tag] = fmt.Sprintf("%d keys stand for %d further cases (same projection, other #inputs / scale / encoding)", collapsed, extraCases)
 	}
 	rep.Extra["observation_points"] = "exported rule functions and every entry of <era>.UtxoValidationRules, on transactions decoded from CBOR by the era's decoder"
 	rep.Finish()
@@ -753,6 +755,17 @@ func grid(rep *vh.Reporter, rs *reports, era *eraDef, rng *rand.Rand, path strin
 			ran++
 			rep.Case(caseKey, r.Scripts)
 			compare(rs, era, func(cl string) (bool, bool) {
+				if ema && cl == "NonAda" {
+					// C32 states what an accepted transaction must satisfy. Whether
+					// an ada-only value written as [coin, {}] is also accepted as
+					// collateral is not part of it: observed, never a disagreement.
+					if o.list[cl] || o.fn[cl] == cl {
+						rs.observed["ada-only collateral encoded as [coin, {}] rejected as non-ada"]++
+					} else {
+						rs.observed["ada-only collateral encoded as [coin, {}] accepted"]++
+					}
+					return false, false
+				}
 				if has(r.Free, cl) {
 					if o.list[cl] {
 						freeSeen[cl+":raised"]++
